@@ -6,7 +6,7 @@ namespace Driver.Ops.C08
 open Driver PqModel.Seek
 
 /-- The mirror that `seek.run` executes: it must transliterate `FilePages` of the tree the harness
-    is built against (`stepAsis` = the code before proposed_fixes/F11.diff, `stepFixed` = with it). -/
+    is built against (`stepAsis` = the code before the `fix:` commits on FilePages.SeekToRow/ReadPage, `stepFixed` = with them). -/
 def mirror : Chunk → St → Op → St × Out := stepFixed
 
 def parseOp? (s : String) : Option Op :=
@@ -21,30 +21,32 @@ def showOut : Out → String
   | .err => "err"
   | .eof => "eof"
   | .page p st len => s!"p{p}:{st}:{len}"
+  | .corrupt => "corrupt"
 
-/-- `<out>/<f.index>:<stream page>:<f.skip>:<f.lastPageIndex|-1>:<cached page|-1>:<serveLastPage>` -/
+/-- `<out>/<f.index>:<stream page>:<f.skip>:<f.lastPageIndex|-1>:<cached page|-1>:<serveLastPage>:<desync>` -/
 def showStep (r : St × Out) : String :=
   let s := r.1
   let (li, lp) := match s.last with
     | some (a, b) => (toString a, toString b)
     | none => ("-1", "-1")
-  s!"{showOut r.2}/{s.index}:{s.pos}:{s.skip}:{li}:{lp}:{if s.serve then 1 else 0}"
+  s!"{showOut r.2}/{s.index}:{s.pos}:{s.skip}:{li}:{lp}:{if s.serve then 1 else 0}:{if s.lost then 1 else 0}"
 
-def runWith (step : Chunk → St → Op → St × Out) (rows dict idx ops : String) : String :=
-  match parseList? parseNat? rows, parseList? parseOp? ops with
-  | some rs, some os =>
+def runWith (step : Chunk → St → Op → St × Out) (rows dict idx bad ops : String) : String :=
+  match parseList? parseNat? rows, parseList? parseNat? bad, parseList? parseOp? ops with
+  | some rs, some bd, some os =>
     if (dict != "0" && dict != "1") || (idx != "0" && idx != "1") then "bad-op" else
-    let c : Chunk := { rows := rs, dict := dict == "1" }
+    let c : Chunk := { rows := rs, dict := dict == "1", bad := bd }
     "ok " ++ " ".intercalate ((run (step c) (init (idx == "1")) os).map showStep)
-  | _, _ => "bad-op"
+  | _, _, _ => "bad-op"
 
-/-- `seek.run <page row counts> <dict 0/1> <with-index 0/1> <ops>`; ops: `s<k>` SeekToRow(k),
-    `r` ReadPage, `i` load the offset index lazily; answer: one token per op (see `showStep`). -/
+/-- `seek.run <page row counts> <dict 0/1> <with-index 0/1> <corrupted pages> <ops>`; ops: `s<k>`
+    SeekToRow(k), `r` ReadPage, `i` load the offset index lazily; answer: one token per op (see
+    `showStep`). -/
 def handle (toks : List String) : Option String :=
   match toks with
-  | ["seek.run", rows, dict, idx, ops] => some (runWith mirror rows dict idx ops)
-  | ["seek.run.asis", rows, dict, idx, ops] => some (runWith stepAsis rows dict idx ops)
-  | ["seek.run.fixed", rows, dict, idx, ops] => some (runWith stepFixed rows dict idx ops)
+  | ["seek.run", rows, dict, idx, bad, ops] => some (runWith mirror rows dict idx bad ops)
+  | ["seek.run.asis", rows, dict, idx, bad, ops] => some (runWith stepAsis rows dict idx bad ops)
+  | ["seek.run.fixed", rows, dict, idx, bad, ops] => some (runWith stepFixed rows dict idx bad ops)
   -- `slice.run <maxDef> <rep levels> <def levels> <i> <j>` -> `ok <rowIndex1> <rowIndex2> <base i> <base j>`
   | ["slice.run", md, rep, dfn, i, j] => some <|
     match parseNat? md, parseList? parseNat? rep, parseList? parseNat? dfn, parseNat? i, parseNat? j with
